@@ -603,6 +603,9 @@ impl<'a> C05Obs<'a> {
 }
 
 impl<'a> Observer for C05Obs<'a> {
+    fn on_iter_marks(&mut self, buf: &[u8], base: usize, marks: &[usize]) -> Result<(), Violation> {
+        self.marks_check(buf, base, marks)
+    }
     fn on_scan(&mut self, buf: &[u8], base: usize, consumed: usize, frame: Option<&MessageFrame>) -> Result<(), Violation> {
         let fr = frame.map(|f| {
             let rs = (f.frame_data().as_ptr() as usize).wrapping_sub(buf.as_ptr() as usize);
@@ -658,6 +661,41 @@ impl<'a> Observer for C05Obs<'a> {
                 st.probe("iter_stops_at_incomplete");
             }
             let _ = nexts;
+        }
+        Ok(())
+    }
+}
+
+impl<'a> C05Obs<'a> {
+    /// consumed() after every next(): the running total of repeated reference scans
+    fn marks_check(&mut self, buf: &[u8], base: usize, marks: &[usize]) -> Result<(), Violation> {
+        let mut want: Vec<usize> = Vec::new();
+        let mut pos = 0usize;
+        loop {
+            if pos >= buf.len() {
+                want.push(pos);
+                break;
+            }
+            let (c, f) = ref_scan(&buf[pos..]);
+            pos += c;
+            want.push(pos);
+            if f.is_none() {
+                break;
+            }
+        }
+        self.evals += 1;
+        if marks != want.as_slice() {
+            return Err(Violation::new(
+                "C05",
+                "C05.e",
+                format!(
+                    "iterator over buffer of {} bytes at abs {}: consumed() read after each next() call was {:?}; the running consumed total of repeated reference scans is {:?}",
+                    buf.len(),
+                    base,
+                    &marks[..marks.len().min(8)],
+                    &want[..want.len().min(8)]
+                ),
+            ));
         }
         Ok(())
     }
